@@ -114,7 +114,7 @@ def run_path(program, c, prefix, lookup=None):
         if c.concrete_self is not None:
             self_obj = c.concrete_self(ex, cls)
         else:
-            self_obj = ex.symbolic_obj(cls, 'self', exact=True)
+            self_obj = ex.symbolic_obj(cls, 'self', exact=c.opts.get('self_exact', True))
         env[params[0][0]] = self_obj
         params = params[1:]
     fr0.self_obj = self_obj
